@@ -538,8 +538,39 @@ def _check_continuations(prog: Program, run: Run) -> None:
                 run.ok(R, g.qual, f"`{x.func.id}(...)` built after a reported problem passes "
                        f"None for {none_fields}; no __post_init__ dereferences them",
                        f"{g.module.rel}:{x.lineno}")
-    if n < 3 or m < 1:
-        raise AnalysisError(f"continuations: {n} codec uses, {m} placeholder constructions")
+    # (c) the codec-error handlers are siblings (atomic encoder, atomic decoder, MIN-MAX-LENGTH
+    #     encoder): all of them report through odxraise and continue with errors='replace'; one
+    #     that raises on its own ignores the mode its siblings honour
+    k = 0
+    for g in prog.iter_functions():
+        if not g.module.rel.startswith("odxtools/"):
+            continue
+        for t in walk_no_nested(g.node):
+            if not isinstance(t, ast.Try):
+                continue
+            for h in t.handlers:
+                tn = ast.unparse(h.type) if h.type is not None else ""
+                if "UnicodeEncodeError" not in tn and "UnicodeDecodeError" not in tn:
+                    continue
+                k += 1
+                via = any(isinstance(y, ast.Call) and call_name(y) == "odxraise"
+                          for b in h.body for y in ast.walk(b))
+                hard = [y for b in h.body for y in ast.walk(b) if isinstance(y, ast.Raise)]
+                if via and not hard:
+                    run.ok(R, g.qual, f"`except {tn}` reports through odxraise and continues",
+                           f"{g.module.rel}:{h.lineno}")
+                else:
+                    run.violation(R, g.qual, "codec-error-not-downgraded",
+                                  f"`except {tn}` " + (f"raises on its own (`{stmt_key(hard[0])}`)"
+                                                      if hard else "does not report through "
+                                                      "odxraise") +
+                                  ": the sibling handlers of the atomic encoder / decoder "
+                                  "downgrade the same problem in non-strict mode, this one "
+                                  "ignores the mode", f"{g.module.rel}:{h.lineno}",
+                                  stmt_key(hard[0]) if hard else tn)
+    if n < 3 or m < 1 or k < 3:
+        raise AnalysisError(f"continuations: {n} codec uses, {m} placeholder constructions, "
+                            f"{k} codec-error handlers")
 
 
 def _check_signals(prog: Program, run: Run) -> None:
